@@ -25,6 +25,16 @@ def targeted(sch, r):
     out.append(['or', ['has', P, S('age')], ['gt', acc(P, 'age'), lit(gen.vlong(1))]])
     out.append(['and', ['not', ['has', P, S('age')]], ['gt', acc(P, 'age'), lit(gen.vlong(1))]])
     out.append(['eq', acc(['if', ['has', P, S('age')], P, P], 'age'), lit(gen.vlong(1))])
+    # least upper bound of records of different width, the wider one in either branch, accessed without a guard
+    narrow = ['mkrec', [S('a'), lit(gen.vlong(1))]]
+    wide = ['mkrec', [S('a'), lit(gen.vlong(1))], [S('b'), lit(gen.vlong(2))]]
+    for c in (acc(C, 'flag'), ['not', acc(C, 'flag')]):
+        out.append(['eq', acc(['if', c, narrow, wide], 'b'), lit(gen.vlong(2))])
+        out.append(['eq', acc(['if', c, wide, narrow], 'b'), lit(gen.vlong(2))])
+        out.append(['eq', acc(['if', c, acc(C, 'a'), ['mkrec', [S('b'), narrow], [S('z'), lit(gen.vlong(1))]]], 'z'), lit(gen.vlong(1))])
+        out.append(['eq', acc(['if', c, ['mkrec', [S('b'), narrow], [S('z'), lit(gen.vlong(1))]], acc(C, 'a')], 'z'), lit(gen.vlong(1))])
+        out.append(['contains', ['mkset', narrow, wide], ['if', c, narrow, wide]])
+        out.append(['eq', acc(acc(['if', c, ['mkrec', [S('r'), narrow]], ['mkrec', [S('r'), wide]]], 'r'), 'b'), lit(gen.vlong(2))])
     return out
 
 
